@@ -84,7 +84,7 @@ impl Property for C20 {
             },
             Phase::Random {
                 name: "random-instants",
-                cases: tier.pick(100_000, 2_000_000),
+                cases: tier.pick(100_000, 20_000_000),
                 strat: Arc::new(|| {
                     (prop_oneof![3 => -(1i64 << 33)..(1i64 << 34), 1 => -(1i64 << 40)..(1i64 << 40), 2 => 0i64..(1 << 32)], 0u32..1_000_000_000, proptest::sample::select(OFFSETS.to_vec()))
                         .prop_map(|(secs, nanos, tz_offset)| C20Case::Instant { secs, nanos, tz_offset })
